@@ -142,7 +142,17 @@ LifeWant(cur, ev) ==
     [] ev.op = "setu64"   -> a
     [] ev.op = "pow2k"    -> LifePow(cur, ev.ctrl)
     [] ev.op = "wide"     -> OS2IP(HexToBytes(ev.arg)) %% P
+    [] ev.op = "inv_from" -> FInv(a)
+    [] ev.op = "neg_from" -> FNeg(a)
+    [] ev.op = "sq_from"  -> FMul(a, a)
+    [] ev.op = "cneg_from" -> IF ev.ctrl = 0 THEN a ELSE FNeg(a)
+    [] ev.op = "add2"     -> FAdd(a, a)
+    [] ev.op = "sub2"     -> FSub(0, a)
+    [] ev.op = "mul2"     -> FMul(a, a)
+    [] ev.op = "pow2k_from" -> LifePow(a, ev.ctrl)
 LifeObsOK(ev, want) ==
+  /\ (Has(ev, "retself") => ev.retself # 0)
+  /\ (Has(ev, "arg_after") /\ ev.arg_after # "" => Is(H(ev.arg), ev.arg_after))
   /\ Is(want, ev.bytes) /\ ev.bytes_again = ev.bytes /\ ev.copy = ev.bytes /\ ev.other = ev.bytes
   /\ ev.isodd = FlagOf(FIsOdd(want)) /\ ev.copy_isodd = ev.isodd /\ ev.other_isodd = ev.isodd
   /\ ev.iszero = FlagOf(BigEq(want, 0)) /\ ev.copy_iszero = ev.iszero /\ ev.eqself = 1 /\ ev.eqcopy = 1
